@@ -17,6 +17,8 @@
 #include <aiounicast_select.hh>
 #include <aiounicast_nonblock.hh>
 #include <dirent.h>
+#include <dlfcn.h>
+#include <execinfo.h>
 #include <fcntl.h>
 #include <signal.h>
 #include <sys/resource.h>
@@ -39,7 +41,16 @@ static void dump_input() {
 	if (fd >= 0) { std::string j = J().kv("case", (long long)ctx.cur_case).kv("entry", g_cur_entry).kv("len", (long long)g_cur_input.size()).kv("input_hex", hx).str(); if (write(fd, j.data(), j.size()) < 0) {} close(fd); }
 	dprintf(2, "\nC12-INPUT case=%ld entry=%s len=%zu file=%s hex=%s\n", ctx.cur_case, g_cur_entry.c_str(), g_cur_input.size(), fn, hx.substr(0, 800).c_str());
 }
-static void on_abort(int) { dump_input(); signal(SIGABRT, SIG_DFL); raise(SIGABRT); }
+// abort() that is neither an assert nor a sanitizer report (e.g. a fatal error inside libgcrypt): print the
+// innermost library frames in the format lib/vf/runner.py derives "signal/<name>/<site>" keys from
+static void on_abort(int) {
+	dump_input();
+	void *bt[64]; int n = backtrace(bt, 64); dprintf(2, "\nVF-CRASH signal=SIGABRT case=%ld\n", ctx.cur_case);
+	static const char *const frag[] = { "TMCG", "CallasDonnerhacke", "BarnettSmart", "Groth", "Hoogh", "Pedersen", "NaorPinkas", "Gennaro", "Canetti", "Jarecki", "Cachin", "aiounicast", "Schindelhauer", "tmcg_" };
+	for (int i = 0; i < n; i++) { Dl_info di; if (!dladdr(bt[i], &di) || !di.dli_sname) continue; if (!strncmp(di.dli_sname, "_ZN3c12", 7) || !strncmp(di.dli_sname, "_ZN2pr", 6)) continue;
+		for (auto f : frag) if (strstr(di.dli_sname, f)) { dprintf(2, "(%s+0x0)\n", di.dli_sname); break; } }
+	signal(SIGABRT, SIG_DFL); raise(SIGABRT);
+}
 
 // ------------------------------------------------------------------ entries
 enum Kind { K_TEXT, K_PGP, K_ARMOR, K_WIRE, K_INTERACTIVE };
@@ -139,7 +150,6 @@ static void build_all() {
 	g_par.fs = pr::PS_G.fs; g_par.gs = pr::PS_G.gs; g_par.le = pr::PS_G.le; g_par.n = 4;
 	g_W.reset(new pr::World(pr::PS_G, 0, ctx.seed)); pr::World &W = *g_W; W.need_rabin(); W.need_vrhe(); W.need_edcf();
 	Rng rg(ctx.seed, 0xC12, 1);
-	std::string only_group = ctx.option("group");
 
 	// ---- importers: seeds exported by the library
 	{
@@ -257,7 +267,6 @@ static void build_all() {
 		EntryT &b = add_entry(std::string("aio/nonblock-") + m.name, "aio", K_WIRE, [mm](const std::string &s) { return wire_run<aiounicast_nonblock>(mm, s); }); b.seeds.push_back({"three-messages", wire_seed<aiounicast_nonblock>(m, wr)});
 	}
 	tl_rng = nullptr;
-	if (!only_group.empty()) { std::vector<EntryT> keep; for (auto &e : g_entries) if (e.group == only_group) keep.push_back(e); g_entries = keep; }
 	for (auto &e : g_entries) for (auto &s : e.seeds) { if (e.kind == K_PGP) e.part.push_back(pparse(s2b(s.data))); else e.tart.push_back(tparse(s.data)); }
 }
 
@@ -287,6 +296,7 @@ int main(int argc, char **argv) {
 	__sanitizer_set_death_callback(dump_input);
 #endif
 	build_all();
+	std::string only_group = ctx.option("group");
 	bool quick = ctx.quick() || ctx.option("tierplan") == "quick"; double scale = atof(ctx.option("scale", "100").c_str()) / 100.0;
 	long sample = ctx.option_l("sample", 0); bool plan_only = !ctx.option("plan").empty(); if (plan_only && sample <= 0) sample = 1;
 
@@ -305,7 +315,7 @@ int main(int argc, char **argv) {
 		k = 0;
 		long stride = (pass == 1 && sample > 0 && total > sample) ? total / sample : 1;
 		for (size_t ei = 0; ei < g_entries.size(); ei++) {
-			EntryT &e = g_entries[ei];
+			EntryT &e = g_entries[ei]; bool skip_group = !only_group.empty() && e.group != only_group;   // same case numbers as the full run
 			if (e.kind == K_INTERACTIVE) {
 				// identity + (prover line, line-mutation class)
 				// quick: a seeded sample of (line, class) pairs per entry, every class and first/last line included
@@ -314,7 +324,7 @@ int main(int argc, char **argv) {
 					bool ident = line == e.plines;
 					if (!ident && pairs > want) { size_t idx = line * L_NCLASS + cls; bool keep = (line == 0 || line + 1 == e.plines) ? ((cls + line) % 2 == 0) : (Rng(ctx.seed, fnv(e.name), idx).below(pairs) < want); if (!keep) continue; }
 					long kc = k++; if (pass == 0) { total++; continue; }
-					if (stride > 1 && kc % stride) continue;
+					if (skip_group || (stride > 1 && kc % stride)) continue;
 					J d; d.kv("e", e.name).kv("line", (long long)line).kv("c", ident ? "id" : lclass_name[cls]).kv("rep", (long long)rep);
 					if (!case_begin(kc, d.str())) continue;
 					g_cur_entry = e.name; g_cur_input = d.str(); g_dumped = false;
@@ -350,7 +360,7 @@ int main(int argc, char **argv) {
 				size_t nv = std::min(cat, cap);
 				for (size_t j = 0; j < nv; j++) {
 					long kc = k++; if (pass == 0) { total++; continue; }
-					if (stride > 1 && kc % stride) continue;
+					if (skip_group || (stride > 1 && kc % stride)) continue;
 					size_t v = (cat <= cap) ? j : (size_t)(Rng(ctx.seed, fnv(e.name) ^ (si * 1315423911ULL), (uint64_t)cls * 1000003ULL + j).next() % cat);
 					const char *cn = e.kind == K_PGP ? pclass_name[cls] : (e.kind == K_ARMOR ? aclass_name[cls] : tclass_name[cls]);
 					J d; d.kv("e", e.name).kv("s", e.seeds[si].name).kv("c", cn).kv("v", (long long)v);
